@@ -1,13 +1,14 @@
 CONSTANTS
-  Scn = "plain1"  AdmitTags = {}  RuleTagSel = "one"  PutSel = "first"
+  Scn = "plain1"  AdmitTags = {}  RuleTagSel = "one"  PutSel = "first"  GetSel = "all"
   Ports <- ScnPorts  Kind <- ScnKind  Admit <- ScnAdmit  RuleTargets <- ScnTargets
-  PutPorts <- ScnPutPorts  GetPorts <- ScnPorts  RuleTags <- ScnRuleTags  RuleActs <- ScnRuleActs
-  Consumers = {"c1", "c2", "c3"}
+  PutPorts <- ScnPutPorts  GetPorts <- ScnGetPorts  RuleTags <- ScnRuleTags  RuleActs <- ScnRuleActs
+  Consumers = {c1, c2}
   Tags = {"a", "b"}
-  MaxPuts = 4  MaxTerm = 2  MaxRules = 0  MaxCloses = 1
+  MaxPuts = 5  MaxTerm = 2  MaxRules = 0  MaxCloses = 1
   SelfReplay = FALSE
-INIT MCInit
-NEXT MCNext
+INIT Init
+NEXT Next
+SYMMETRY ConsumerSym
 INVARIANT TypeOK
 INVARIANT DeliveredIsPrefix
 INVARIANT NothingLostOrDuplicated
